@@ -1,4 +1,5 @@
 import AkVerif.Lemmas.HttpConnHeap
+import AkVerif.Lemmas.HttpConn
 /-!
 C17, second part of the heap lemmas: monotonicity, the frame over whole histories, requests as a
 function of the view, what a derivation creates, and the caller's lists.
@@ -14,15 +15,26 @@ theorem getConn_dicts (H : Heap) (k : Nat) (comps : Option (List Str)) : (getCon
   · rw [h]
   · rw [h]
     obtain ⟨_, _, _, _, _, _, _, _, hd, _⟩ := mkConn_spec hmk
-    exact hd
+    exact hd.1
 
-theorem request_dicts (H : Heap) (c : Nat) (args : Args) : (request H c args).1.dicts = H.dicts := by
-  rcases request_heap H c args with h | ⟨r, x, h⟩ <;> rw [h]
+theorem getConn_userDicts (H : Heap) (k : Nat) (comps : Option (List Str)) :
+    (getConn H k comps).1.userDicts = H.userDicts := by
+  rcases getConn_heap H k comps with h | ⟨cl, pfx, hcl, h⟩ | ⟨cl, pfx, H1, n, hcl, hmk, h⟩
+  · rw [h]
+  · rw [h]
+  · rw [h]
+    obtain ⟨_, _, _, _, _, _, _, _, hd, _⟩ := mkConn_spec hmk
+    exact hd.2
+
+theorem request_dicts (H : Heap) (c : Nat) (args : Args) : ∃ y, (request H c args).1.dicts = H.dicts ++ y := by
+  rcases (request_effect H c args).dicts with h | ⟨d', h⟩
+  · exact ⟨[], by simp [h]⟩
+  · exact ⟨[d'], h⟩
 
 theorem mkConn_conns_le {H H' : Heap} {t own plain n} (h : mkConn H t own plain = some (H', n)) :
     H.conns.length ≤ H'.conns.length ∧ H'.dicts = H.dicts := by
   obtain ⟨_, _, _, _, hcs, _, _, _, hd, _⟩ := mkConn_spec h
-  exact ⟨by simp [hcs], hd⟩
+  exact ⟨by simp [hcs], hd.1⟩
 
 theorem step_mono (H : Heap) (op : Op) :
     H.conns.length ≤ (step H op).1.conns.length ∧ ∃ y, (step H op).1.dicts = H.dicts ++ y := by
@@ -33,7 +45,7 @@ theorem step_mono (H : Heap) (op : Op) :
     split
     · split <;> exact ⟨Nat.le_refl _, [], by simp⟩
     · exact ⟨Nat.le_refl _, [], by simp⟩
-  | newDict d => exact ⟨Nat.le_refl _, [d], by simp [step]⟩
+  | newDict d => exact ⟨Nat.le_refl _, [ofUDict d], by simp [step]⟩
   | mk t own plain =>
     simp only [step]
     split
@@ -87,28 +99,28 @@ theorem step_mono (H : Heap) (op : Op) :
       have : H' = (getConn H k comps).1 := by rw [heq]
       subst this
       have h2 := request_conns (getConn H k comps).1 c' args
-      have d2 := request_dicts (getConn H k comps).1 c' args
+      obtain ⟨y2, d2⟩ := request_dicts (getConn H k comps).1 c' args
       split
       · rename_i H'' s heq2
         have : H'' = (request (getConn H k comps).1 c' args).1 := by rw [heq2]
-        subst this; exact ⟨by rw [h2]; exact h1, [], by simp [d2, d1]⟩
+        subst this; exact ⟨by rw [h2]; exact h1, y2, by rw [d2, d1]⟩
       · rename_i H'' e heq2
         have : H'' = (request (getConn H k comps).1 c' args).1 := by rw [heq2]
-        subst this; exact ⟨by rw [h2]; exact h1, [], by simp [d2, d1]⟩
+        subst this; exact ⟨by rw [h2]; exact h1, y2, by rw [d2, d1]⟩
     · rename_i H' e heq
       have : H' = (getConn H k comps).1 := by rw [heq]
       subst this; exact ⟨h1, [], by simp [d1]⟩
   | request c' args =>
     simp only [step]
     have h2 := request_conns H c' args
-    have d2 := request_dicts H c' args
+    obtain ⟨y2, d2⟩ := request_dicts H c' args
     split
     · rename_i H' s heq
       have : H' = (request H c' args).1 := by rw [heq]
-      subst this; exact ⟨by rw [h2]; exact Nat.le_refl _, [], by simp [d2]⟩
+      subst this; exact ⟨by rw [h2]; exact Nat.le_refl _, y2, d2⟩
     · rename_i H' e heq
       have : H' = (request H c' args).1 := by rw [heq]
-      subst this; exact ⟨by rw [h2]; exact Nat.le_refl _, [], by simp [d2]⟩
+      subst this; exact ⟨by rw [h2]; exact Nat.le_refl _, y2, d2⟩
 
 theorem run_mono (H : Heap) (ops : List Op) :
     H.conns.length ≤ (run H ops).conns.length ∧ ∃ y, (run H ops).dicts = H.dicts ++ y := by
@@ -133,12 +145,20 @@ theorem run_view {H : Heap} (hi : Inv H) {c : Nat} (hc : c < H.conns.length) (op
     exact step_view hi hc op (hno op List.mem_cons_self)
 
 /-- a dictionary reference that is valid keeps its content -/
-theorem optDict_ext {H H' : Heap} (y : List UDict) (h : H'.dicts = H.dicts ++ y) (r : Option Nat)
+theorem optDict_ext {H H' : Heap} (y : List Dict) (h : H'.dicts = H.dicts ++ y) (r : Option Nat)
     (hr : ∀ n, r = some n → n < H.dicts.length) : optDict H' r = optDict H r := by
   cases r with
   | none => rfl
   | some n =>
     simp only [optDict]
+    rw [h, List.getElem?_append_left (hr n rfl)]
+
+theorem optParams_ext {H H' : Heap} (y : List Dict) (h : H'.dicts = H.dicts ++ y) (r : Option Nat)
+    (hr : ∀ n, r = some n → n < H.dicts.length) : optParams H' r = optParams H r := by
+  cases r with
+  | none => rfl
+  | some n =>
+    simp only [optParams]
     rw [h, List.getElem?_append_left (hr n rfl)]
 
 /-! ## requests as a function of the view -/
@@ -152,21 +172,24 @@ def sentCore (H : Heap) (c : Nat) (args : Args) : Except Err Sent :=
   | .error e => .error e
 
 /-- the same, computed from the view alone -/
-def pureSend (v : Conn × Str × Bool × List Adapter) (hd pd : Option UDict) (args : Args) : Except Err Sent :=
+def pureSend (v : Conn × Str × Bool × List Adapter) (hd : Option Dict) (pd : Option UDict) (args : Args) :
+    Except Err Sent :=
   match applyAll v.2.2.2 { path := args.path, headers := copyHeaders hd } with
   | .error e => .error e
-  | .ok ra => .ok (eraseId (assemble ⟨v.2.1, v.2.2.1, 0⟩ ra args.method pd args.data (responses v.2.2.2)))
+  | .ok ra => .ok (eraseId (assemble ⟨v.2.1, v.2.2.1, 0⟩ ra args.method pd args.data (respFold v.2.2.2 (decodeResp args.raw args.resp))))
 
-theorem eraseId_assemble (impl : Impl) (ra : RA) (m : Option Str) (pd : Option UDict) (d : Body) (r : List Str) :
+theorem eraseId_assemble (impl : Impl) (ra : RA) (m : Option Str) (pd : Option UDict) (d : Body) (r : Except Err J) :
     eraseId (assemble impl ra m pd d r) = eraseId (assemble ⟨impl.address, impl.sendIds, 0⟩ ra m pd d r) := by
   simp [assemble, eraseId]
 
 theorem sentCore_eq (H : Heap) (c : Nat) (args : Args) :
     sentCore H c args =
-      match viewCore H c, optDict H args.headers, optDict H args.params with
+      match viewCore H c, optDict H args.headers, optParams H args.params with
       | some v, some hd, some pd => pureSend v hd pd args
       | _, _, _ => .error .keyError := by
-  unfold sentCore request viewCore
+  unfold sentCore
+  rw [(request_spec H c args).1]
+  unfold requestPure viewCore
   cases hv : connView H c with
   | none => simp
   | some v =>
@@ -174,7 +197,7 @@ theorem sentCore_eq (H : Heap) (c : Nat) (args : Args) :
     cases hh : optDict H args.headers with
     | none => simp
     | some hd =>
-      cases hp : optDict H args.params with
+      cases hp : optParams H args.params with
       | none => simp
       | some pd =>
         simp only [Option.map_some, pureSend]
@@ -183,7 +206,6 @@ theorem sentCore_eq (H : Heap) (c : Nat) (args : Args) :
         | ok ra =>
           simp only []
           rw [← eraseId_assemble impl]
-          cases (assemble impl ra args.method pd args.data (responses as)).genId <;> rfl
 
 /-! ## what a derivation creates -/
 
@@ -303,8 +325,8 @@ theorem getConn_lists (H : Heap) (k : Nat) (comps : Option (List Str)) :
   · rw [h]; have hm := mkConn_lists hmk; exact hm
 
 theorem request_lists (H : Heap) (c : Nat) (args : Args) :
-    (request H c args).1.lists = H.lists ∧ (request H c args).1.userLists = H.userLists := by
-  rcases request_heap H c args with h | ⟨r, x, h⟩ <;> rw [h] <;> exact ⟨rfl, rfl⟩
+    (request H c args).1.lists = H.lists ∧ (request H c args).1.userLists = H.userLists :=
+  ⟨(request_effect H c args).lists, (request_effect H c args).userLists⟩
 
 /-- a list object of the caller changes only when the caller appends to it -/
 theorem step_userList {H : Heap} (hi : Inv H) {l : Nat} (hl : l ∈ H.userLists) (op : Op)
@@ -407,5 +429,124 @@ theorem run_userList {H : Heap} (hi : Inv H) {l : Nat} (hl : l ∈ H.userLists) 
     simp only [run]
     have h1 := step_userList hi hl op (hno op List.mem_cons_self)
     rw [ih (step_inv hi op) h1.2 (fun o ho => hno o (List.mem_cons_of_mem _ ho)), h1.1]
+
+/-! ## the caller's dictionaries -/
+
+/-- the caller's dict objects exist and hold text only (they are made by `newDict`) -/
+def DInv (H : Heap) : Prop := ∀ r, r ∈ H.userDicts → ∃ u : UDict, H.dicts[r]? = some (ofUDict u)
+
+theorem DInv.empty : DInv Heap.empty := by
+  intro r hr; simp [Heap.empty] at hr
+
+theorem step_userDicts (H : Heap) (op : Op) :
+    (step H op).1.userDicts = H.userDicts ∨
+    ∃ d, (step H op).1.userDicts = H.userDicts ++ [H.dicts.length] ∧
+      (step H op).1.dicts = H.dicts ++ [ofUDict d] := by
+  cases op with
+  | newList as => exact Or.inl rfl
+  | listAppend l a =>
+    simp only [step]
+    split
+    · split <;> exact Or.inl rfl
+    · exact Or.inl rfl
+  | newDict d => exact Or.inr ⟨d, rfl, rfl⟩
+  | mk t own plain =>
+    simp only [step]
+    split
+    · rename_i H' n h
+      obtain ⟨_, _, _, _, _, _, _, _, hd, _⟩ := mkConn_spec h
+      exact Or.inl hd.2
+    · exact Or.inl rfl
+  | add c a =>
+    simp only [step]
+    split
+    · exact Or.inl rfl
+    · split <;> exact Or.inl rfl
+  | newCaller t pmap =>
+    simp only [step]
+    split
+    · split
+      · exact Or.inl rfl
+      · split
+        · exact Or.inl rfl
+        · split
+          · rename_i H' n h
+            obtain ⟨_, _, _, _, _, _, _, _, hd, _⟩ := mkConn_spec h
+            exact Or.inl hd.2
+          · exact Or.inl rfl
+    · split
+      · rename_i H' n h
+        obtain ⟨_, _, _, _, _, _, _, _, hd, _⟩ := mkConn_spec h
+        exact Or.inl hd.2
+      · exact Or.inl rfl
+  | clone k own =>
+    simp only [step]
+    split
+    · exact Or.inl rfl
+    · split
+      · rename_i H' n h
+        obtain ⟨_, _, _, _, _, _, _, _, hd, _⟩ := mkConn_spec h
+        exact Or.inl hd.2
+      · exact Or.inl rfl
+  | connOf k => simp only [step]; split <;> exact Or.inl rfl
+  | cached k pfx =>
+    simp only [step]
+    split
+    · split <;> exact Or.inl rfl
+    · exact Or.inl rfl
+  | call k comps args =>
+    simp only [step]
+    have h1 := getConn_userDicts H k comps
+    split
+    · rename_i H' c' heq
+      have : H' = (getConn H k comps).1 := by rw [heq]
+      subst this
+      have h2 := (request_effect (getConn H k comps).1 c' args).userDicts
+      split
+      · rename_i H'' s heq2
+        have : H'' = (request (getConn H k comps).1 c' args).1 := by rw [heq2]
+        subst this; exact Or.inl (h2.trans h1)
+      · rename_i H'' e heq2
+        have : H'' = (request (getConn H k comps).1 c' args).1 := by rw [heq2]
+        subst this; exact Or.inl (h2.trans h1)
+    · rename_i H' e heq
+      have : H' = (getConn H k comps).1 := by rw [heq]
+      subst this; exact Or.inl h1
+  | request c' args =>
+    simp only [step]
+    have h2 := (request_effect H c' args).userDicts
+    split
+    · rename_i H' s heq
+      have : H' = (request H c' args).1 := by rw [heq]
+      subst this; exact Or.inl h2
+    · rename_i H' e heq
+      have : H' = (request H c' args).1 := by rw [heq]
+      subst this; exact Or.inl h2
+
+theorem step_dinv {H : Heap} (hd : DInv H) (op : Op) : DInv (step H op).1 := by
+  intro r hr
+  obtain ⟨_, y, hy⟩ := step_mono H op
+  have old : r ∈ H.userDicts → ∃ u : UDict, (step H op).1.dicts[r]? = some (ofUDict u) := by
+    intro h
+    obtain ⟨u, hu⟩ := hd r h
+    have hlt := (List.getElem?_eq_some_iff.mp hu).1
+    exact ⟨u, by rw [hy, List.getElem?_append_left hlt]; exact hu⟩
+  rcases step_userDicts H op with h | ⟨d, h1, h2⟩
+  · rw [h] at hr; exact old hr
+  · rw [h1] at hr
+    rcases List.mem_append.mp hr with h | h
+    · exact old h
+    · simp at h; subst h
+      exact ⟨d, by rw [h2]; simp⟩
+
+theorem run_dinv {H : Heap} (hd : DInv H) (ops : List Op) : DInv (run H ops) := by
+  induction ops generalizing H with
+  | nil => exact hd
+  | cons op ops ih => exact ih (step_dinv hd op)
+
+theorem optParams_user {H : Heap} (hd : DInv H) {r : Nat} (hr : r ∈ H.userDicts) :
+    ∃ u : UDict, optDict H (some r) = some (some (ofUDict u)) ∧ optParams H (some r) = some (some u) := by
+  obtain ⟨u, hu⟩ := hd r hr
+  exact ⟨u, by simp [optDict, hu], by simp [optParams, hu, toUDict_ofUDict]⟩
 
 end HttpConn
